@@ -7,6 +7,7 @@ import (
 // c04Extra: rules added after the fourth independent seeding round.
 func c04Extra(r *core.Run) {
 	p := r.P
+	defer c04r12(r) // round 12: the token parser admits every HMAC method and validates the claims (c04_r12.go)
 	defer c04r11(r) // round 11: the option's SignatureConfig reaches the gate unchanged (c04_r11.go)
 	defer c04r10(r) // round 10: the signature option marks every strict group as enabled (c04_r10.go)
 	defer c04r9(r)  // round 9: the unauthorized callback cannot commit a status other than 401 (c04_r9.go)
